@@ -1023,3 +1023,6 @@ def run_case(case):
             out.label("path:" + pth)
     out.nontrivial = origin == "random" or len(paths) >= 2
     return out
+
+
+RULE = RULE + " " + 'Later additions: far-tail truncation windows (refused as documented, or checked like any other); the non-truncated cdf / inverse pair of DistNormalTrunc; float queries before the integer pmf sweep.'
